@@ -113,11 +113,13 @@ var c10Keys = map[string]c10Key{
 	"encrypted-pem":               {file: "rsa.priv", pub: "rsa.pub", givePass: "hunter2", passVar: "FORMAT", apk: true},
 	"encrypted-pem-general":       {file: "rsa.priv", pub: "rsa.pub", givePass: "hunter2", passVar: "NFPM_PASSPHRASE", apk: true},
 	"encrypted-pem-wrong":         {file: "rsa.priv", pub: "rsa.pub", givePass: "nope", passVar: "FORMAT", apk: true, wantFail: true},
-	"pem-garbage":                 {file: "wrong_key_format.priv", pub: "rsa.pub", apk: true, wantFail: true},
+	// an encrypted PEM key whose passphrase begins and ends with a blank (generated at run time from the unprotected key)
+	"encrypted-pem-padded-pass": {file: "GENPEM: hunter2 ", pub: "rsa_unprotected.pub", givePass: " hunter2 ", passVar: "FORMAT", apk: true},
+	"pem-garbage":               {file: "wrong_key_format.priv", pub: "rsa.pub", apk: true, wantFail: true},
 }
 
 var c10PGPKeys = []string{"subkey-only-with-passphrase", "armored-with-passphrase", "binary-with-passphrase", "armored-leading-blank", "armored-leading-text", "armored-crlf", "armored-trailing-text", "keyid-decimal", "decimal-no-keyid", "armored", "binary", "protected", "protected-binary", "subkey-only", "keyid-primary", "keyid-subkey", "wrong-passphrase", "no-passphrase", "multiple-keys", "keyid-invalid", "key-missing"}
-var c10APKKeys = []string{"pkcs1", "pkcs8", "pkcs8-4096", "encrypted-pem", "encrypted-pem-general", "encrypted-pem-wrong", "pem-garbage"}
+var c10APKKeys = []string{"encrypted-pem-padded-pass", "pkcs1", "pkcs8", "pkcs8-4096", "encrypted-pem", "encrypted-pem-general", "encrypted-pem-wrong", "pem-garbage"}
 
 // c10Payloads is the number of payload shapes (0 = empty).
 const c10Payloads = 6
@@ -468,6 +470,30 @@ func checkC10(env *engine.Env, ci any) engine.Outcome {
 		sigm["key_file"] = rotPath
 	} else if c.Via == "file" {
 		sigm["key_file"] = keyPath(env, key.file)
+		if strings.HasPrefix(key.file, "GENPEM:") {
+			pass := strings.TrimPrefix(key.file, "GENPEM:")
+			raw, err := os.ReadFile(keyPath(env, "rsa_unprotected.priv"))
+			if err != nil {
+				out.HarnessError = err.Error()
+				return out
+			}
+			blk, _ := pem.Decode(raw)
+			if blk == nil {
+				out.HarnessError = "rsa_unprotected.priv is not PEM"
+				return out
+			}
+			enc, err := x509.EncryptPEMBlock(rand.Reader, blk.Type, blk.Bytes, []byte(pass), x509.PEMCipherAES256) //nolint:staticcheck
+			if err != nil {
+				out.HarnessError = err.Error()
+				return out
+			}
+			gp := filepath.Join(env.Scratch, "gen-key-padded-pass.priv")
+			if err := os.WriteFile(gp, pem.EncodeToMemory(enc), 0o600); err != nil {
+				out.HarnessError = err.Error()
+				return out
+			}
+			sigm["key_file"] = gp
+		}
 		if strings.HasPrefix(key.file, "GEN:") {
 			// the armored test key re-written the way key files reach a build in practice (a secret pasted from a YAML
 			// block or heredoc: leading blank line, a comment line in front, CRLF line ends, text after the block)
